@@ -105,6 +105,51 @@ pub fn ngram_pool(w: u8) -> Vec<TagNg> {
     out
 }
 
+/// Tag biases / tag weight vectors with trailing zeros, all zeros, half zeros and a leading zero,
+/// for class counts on both sides of the fixed(8)/variable switch.
+pub fn zero_tag_family() -> Vec<(String, ModelSpec)> {
+    let mut pool = vec![];
+    for shape in [vec![2usize], vec![3, 2], vec![8], vec![9], vec![5, 5], vec![2, 9], vec![3, 3, 3]] {
+        for zero_pattern in 0..4u8 {
+            let mut m = boundary_part(0, 2);
+            let pool6 = ngram_pool(2);
+            let mut tm = tag_model("a", &shape, &[pool6[0].clone(), pool6[3].clone(), pool6[7].clone()], 0, 77);
+            let z = |v: &mut Vec<i32>| match zero_pattern {
+                0 => v.iter_mut().for_each(|x| *x = 0),
+                1 => {
+                    if let Some(l) = v.last_mut() {
+                        *l = 0
+                    }
+                }
+                2 => {
+                    let n = v.len();
+                    v.iter_mut().skip(n / 2).for_each(|x| *x = 0)
+                }
+                _ => {
+                    if let Some(f) = v.first_mut() {
+                        *f = 0
+                    }
+                }
+            };
+            z(&mut tm.bias);
+            for d in tm.char_ngram_model.iter_mut() {
+                for w in d.weights.iter_mut() {
+                    z(&mut w.weights);
+                }
+            }
+            for d in tm.type_ngram_model.iter_mut() {
+                for w in d.weights.iter_mut() {
+                    z(&mut w.weights);
+                }
+            }
+            m.tag_models.push(tm);
+            m.tag_models.push(tag_model("ab", &[2, 2], &[pool6[2].clone()], 1, 78));
+            pool.push((format!("tag-zeros shape={shape:?} pattern={zero_pattern}"), m));
+        }
+    }
+    pool
+}
+
 pub struct Case {
     pub spec: ModelSpec,
     pub desc: String,
@@ -284,7 +329,8 @@ pub fn run(tier: Tier) -> ! {
     let sigma = ['a', 'b', 'あ'];
     let l = tier.pick(4, 5);
     let texts = gen::strings(&sigma, 1, l);
-    let cases = families(tier);
+    let mut cases = families(tier);
+    cases.extend(zero_tag_family().into_iter().map(|(desc, spec)| Case { spec, desc: format!("T5 {desc}") }));
     chk.set("models", json!(cases.len()));
     chk.set("texts", json!(texts.len()));
     chk.set("max_text_len", json!(l));
